@@ -176,3 +176,35 @@ func ZZVerifC13NestedSection() {
 	nd.Assert(outer.Commit() == nil, "C13/commit-ok")
 	nd.Reach("C13/nested-section-end")
 }
+
+// ZZVerifC13ChainLock: the holder of the PARENT's data lock works on a child
+// scope (which has a lock of its own) while another goroutine reads through
+// that child a key the child does not hold (the read falls through to the
+// locked parent): nobody blocks for ever, the reader sees the parent's value
+// from before or after the whole section, never the intermediate one.
+func ZZVerifC13ChainLock() {
+	nd.Schedule(nd.Param("CP", 2))
+	nd.Races()
+	parent := New(make(map[interface{}]interface{}))
+	parent.SetValue("k", "old")
+	child := NewChild(parent, make(map[interface{}]interface{}))
+	var wg sync.WaitGroup
+	var seen interface{}
+	wg.Add(2)
+	go func() {
+		defer wg.Done()
+		lk := parent.LockData()
+		lk.SetValue("k", "tmp")
+		child.SetValue("c", "x") // the child's own lock, taken inside the section
+		lk.SetValue("k", "new")
+		nd.Assert(lk.Commit() == nil, "C13/chainlock-commit")
+	}()
+	go func() {
+		defer wg.Done()
+		seen = child.Value("k")
+	}()
+	wg.Wait()
+	nd.Assert(seen == "old" || seen == "new", "C13/chainlock-reader-sees-no-intermediate-value")
+	nd.Assert(child.Value("c") == "x" && child.Value("k") == "new", "C13/chainlock-final-state")
+	nd.Reach("C13/chainlock-end")
+}
